@@ -187,18 +187,80 @@ def run(ctx):
     flush(ctx, cases, reqs, impls)
 
 
+_ARGDIR = None
+
+
+def _argdir():
+    global _ARGDIR
+    if _ARGDIR is None:
+        import atexit
+        import shutil
+        import tempfile
+        _ARGDIR = tempfile.mkdtemp(prefix="verif-c14-", dir="/var/tmp")
+        atexit.register(shutil.rmtree, _ARGDIR, True)
+    return _ARGDIR
+
+
 def check_list(master, home, rng, tps):
-    args = ["%s=%d" % (rng.choice(tps), rng.randint(1, 9)) for _ in range(rng.randint(1, 4))]
+    """process_and_fetch(args) = fetch of the individually interpreted arguments, in order, for every kind of argument
+    process_args knows: name=value, `--name=value`, `--flag` (= True), a blank argument (skipped), the name of a parameter
+    file (parsed and used as a source), and arguments nobody can interpret (handed back by `collect_remaining`)"""
+    import os
+    args, want_sources, want_remaining = [], [], []
+    interp2 = master.command_line_argument_interpreter(home_scope=home)
+    for k in range(rng.randint(1, 5)):
+        kind = rng.random()
+        p = rng.choice(tps)
+        if kind < 0.45:
+            a = "%s=%d" % (p, rng.randint(1, 9))
+            plan = ("arg", a)
+        elif kind < 0.55:
+            a = "--%s=%d" % (p, rng.randint(1, 9))
+            plan = ("arg", a[2:])
+        elif kind < 0.65:
+            a = "--" + p
+            plan = ("arg", p + " = True")
+        elif kind < 0.72:
+            a = rng.choice(["", "  ", "\t"])
+            plan = ("skip", None)
+        elif kind < 0.87:
+            fn = os.path.join(_argdir(), "f%d_%d.params" % (os.getpid(), k))
+            text = "".join("%s = %d\n" % (rng.choice(tps), rng.randint(1, 9)) for _ in range(rng.randint(1, 3)))
+            with open(fn, "w") as f:
+                f.write(text)
+            a = fn
+            plan = ("file", fn)
+        else:
+            a = rng.choice(["positional", "no_such_file.params", "7", "word another"])
+            plan = ("remaining", a)
+        args.append(a)
+        if plan[0] == "arg":
+            want_sources.append(lambda x=plan[1]: interp2.process_arg(arg=x))
+        elif plan[0] == "file":
+            want_sources.append(lambda x=plan[1]: freephil.parse(file_name=x))
+        elif plan[0] == "remaining":
+            want_remaining.append(plan[1])
     interp = master.command_line_argument_interpreter(home_scope=home)
     try:
-        a = interp.process_and_fetch(args=args).as_str(attributes_level=2)
-        interp2 = master.command_line_argument_interpreter(home_scope=home)
-        b = master.fetch(sources=[interp2.process(arg=x) for x in args]).as_str(attributes_level=2)
+        got, remaining = interp.process_and_fetch(args=args, custom_processor="collect_remaining")
+        a = got.as_str(attributes_level=2)
+    except (freephil.Sorry, RuntimeError) as e:
+        a, remaining = ("refused", type(e).__name__), None
     except BaseException as e:
-        if isinstance(e, (freephil.Sorry, RuntimeError)):
-            return None
-        return "process_and_fetch raised %s" % type(e).__name__
-    return None if a == b else "process_and_fetch(%r) differs from fetch of the individually interpreted arguments" % (args,)
+        return "process_and_fetch(%r) raised %s: %s" % (args, type(e).__name__, str(e)[:80])
+    try:
+        b = master.fetch(sources=[f() for f in want_sources]).as_str(attributes_level=2)
+    except (freephil.Sorry, RuntimeError) as e:
+        b = ("refused", type(e).__name__)
+    if isinstance(a, tuple) or isinstance(b, tuple):
+        # an argument that is refused on its own (ambiguous name ...) is swallowed by process_args and handed to the custom
+        # processor: the two sides then differ by construction; only agreement on acceptance is required here
+        return None
+    if a != b:
+        return "process_and_fetch(%r) differs from fetch of the individually interpreted arguments" % (args,)
+    if remaining != want_remaining:
+        return "collect_remaining returned %r for %r, expected %r" % (remaining, args, want_remaining)
+    return None
 
 
 def oracle(master, tps, home, name, value, res, exc, printed):
